@@ -87,6 +87,28 @@ def fn_bodies(src):
     return res
 
 
+def all_fn_bodies(src):
+    """name -> bodies of every fn of the file (methods and free functions)."""
+    res = {}
+    for f in re.finditer(r"\bfn\s+(\w+)", src):
+        j, depth = f.end(), 0
+        while j < len(src) and not (src[j] == "(" and depth == 0):
+            if src[j] == "<":
+                depth += 1
+            elif src[j] == ">" and src[j - 1] != "-":
+                depth -= 1
+            j += 1
+        k = src.find("{", j)
+        semi = src.find(";", j)
+        if k < 0 or (0 <= semi < k):
+            continue
+        try:
+            res.setdefault(f.group(1), []).append(block_at(src, k))
+        except ValueError:
+            pass
+    return res
+
+
 def find_fn(bodies, impl_pat, name):
     hits = [b for (h, n, b) in bodies if n == name and re.search(impl_pat, h)]
     if len(hits) != 1:
@@ -233,8 +255,15 @@ def gen_filesink():
     for sink, impl_pat, lname in [("FileSink", r"^<T: Copy> FileSink<T>$", "fileSink"),
                                   ("NoCopyFileSink", r"^<T> NoCopyFileSink<T>$", "ncFileSink")]:
         new = find_fn(bodies, impl_pat, "new")
+        if not re.search(r"Mode\s*::\s*Create\s*=>", new):
+            # the open code may live in a private helper called from new()
+            for hname, hbodies in all_fn_bodies(src).items():
+                if hname != "new" and re.search(r"\b%s\s*\(" % hname, new):
+                    for hb in hbodies:
+                        if re.search(r"Mode\s*::\s*Create\s*=>", hb):
+                            new = hb
         for mode in ["Create", "Overwrite", "Append"]:
-            m = re.search(r"Mode\s*::\s*%s\s*=>(.*?)(?=Mode\s*::|\}\s*\)\s*;)" % mode, new, flags=re.S)
+            m = re.search(r"Mode\s*::\s*%s\s*=>(.*?)(?=Mode\s*::|\}\s*\)?\s*;)" % mode, new, flags=re.S)
             if not m:
                 raise SystemExit(f"extract: arm Mode::{mode} not found in {sink}::new")
             f = open_flags(m.group(1))
@@ -320,15 +349,42 @@ def find_fn_free(src, name):
     return block_at(src, k)
 
 
+FILES = {"gen_waits": "Waits.lean", "gen_conc": "Conc.lean", "gen_hdlc": "Hdlc.lean", "gen_filesink": "FileSink.lean",
+         "gen_e2e": "E2e.lean"}
+
+
+def status_file(fname, error):
+    """RR/Gen/<X>Status.lean: imported by the property files that rest on the generated definitions of <X>. When the
+    translator cannot read the source any more, <X>.lean keeps its previous (clean-tree) content, so that the model
+    driver and every unrelated property still build, and the status file fails with the translator's message - only
+    the properties about <X> then lose their proof obligation."""
+    base = fname[:-len(".lean")]
+    if error is None:
+        body = "theorem %s_translated : True := trivial" % base.lower()
+    else:
+        msg = error.replace("\\", "/").replace('"', "'").replace("\n", " ")[:600]
+        body = '#eval (throw (IO.userError "tools/extract.py could not translate the current source: %s") : IO Unit)' % msg
+    return base + "Status.lean", "/-! GENERATED by tools/extract.py on every run. Do not edit. -/\nnamespace RR.Gen\n%s\nend RR.Gen\n" % body
+
+
 def main():
     os.makedirs(GEN, exist_ok=True)
-    gens = []
-    for name, fn in sorted(globals().items()):
-        if name.startswith("gen_") and callable(fn):
-            gens.append(fn)
-    for fn in gens:
-        fname, content = fn()
-        write_if_changed(os.path.join(GEN, fname), content)
+    rc = 0
+    for name, fname in sorted(FILES.items()):
+        fn = globals()[name]
+        error = None
+        try:
+            fname2, content = fn()
+            assert fname2 == fname
+            write_if_changed(os.path.join(GEN, fname), content)
+        except (SystemExit, Exception) as e:  # noqa: BLE001
+            error = "%s: %s" % (name, e)
+            print("extract: " + error, file=sys.stderr)
+            if not os.path.exists(os.path.join(GEN, fname)):
+                rc = 1  # nothing to fall back on
+        sname, scontent = status_file(fname, error)
+        write_if_changed(os.path.join(GEN, sname), scontent)
+    sys.exit(rc)
 
 
 if __name__ == "__main__":
